@@ -91,6 +91,27 @@ fn do_update_symbol(
 	}
 }
 
+/// Verification hook: one unification step of the typer on its own
+/// (the symbol is known to have `symbol_type`, and now receives `new_type`).
+#[cfg(penne_verif)]
+pub fn verif_update_symbol(
+	symbol_identifier: Identifier,
+	symbol_type: ValueType,
+	new_identifier: &Identifier,
+	new_type: ValueType,
+) -> Option<ValueType>
+{
+	let mut symbol = Symbol {
+		identifier: symbol_identifier,
+		value_type: Ok(symbol_type),
+	};
+	match do_update_symbol(&mut symbol, new_identifier, new_type)
+	{
+		Ok(()) => symbol.value_type.ok(),
+		Err(_) => None,
+	}
+}
+
 impl Typer
 {
 	/// Add a structure as an opaque type, so that it can be used in
